@@ -36,6 +36,20 @@
 (*   whether every lexical choice is one the common dialect makes: such    *)
 (*   files must be accepted; any other must parse to the table or raise.   *)
 (*                                                                         *)
+(* REUSE RULE.  What is read is a function of the file's bytes and of the   *)
+(* reader's / source's constructor parameters only: an object carries       *)
+(* nothing from one application to the next.  In the spec this is the fact  *)
+(* that Parse is an operator of the file alone; it is stated for histories  *)
+(* as ReadHistory / ArffReuse, CsvReuse, SvmReuse (one reader object        *)
+(* applied to <<f, g, f>> gives <<T(f), T(g), T(f)>>, g = the default file  *)
+(* of the case's shape), and for sources by the action Again: after End the *)
+(* same source is read a second time (Reads = 2) from a fresh assembler and *)
+(* must emit the same lines (DelimDone holds after every read).  The driver *)
+(* replays it with ONE reader object over file A, another file B, A again   *)
+(* (also interleaved, also after a file that is rejected), one source /     *)
+(* environment object read twice, and one DiskSink written twice (append:   *)
+(* LfBytes(a) \o LfBytes(b) reads back as a \o b, invariant AppendRead).    *)
+(*                                                                         *)
 (* Text is a sequence of pieces (one-character strings, or a keyword as    *)
 (* one piece); Str() concatenates them for printing.  "~" stands for a     *)
 (* non-ASCII character (mapped by the driver).  Numbers are tenths.        *)
@@ -49,7 +63,8 @@ CONSTANTS Mode,      \* "delim" | "arff" | "csv" | "svm"
           K,         \* tables: at most K fields depart from their default
           Shapes,    \* tables: which shapes to enumerate
           SparseSet, \* arff: {FALSE} dense rows, {TRUE} sparse rows, or both
-          Rich       \* tables: TRUE = the large option sets
+          Rich,      \* tables: TRUE = the large option sets
+          Reads      \* delim: how many times the same source is read (1 or 2)
 
 VARIABLES inp,   \* the case (constant along a behaviour)
           dl,    \* delim: state of the line assembler
@@ -103,9 +118,10 @@ Eat(s, cs) ==
 CutSets(n) == IF n <= 1 THEN {{}}
               ELSE IF CutMode = "all" THEN SUBSET (1..(n-1))
               ELSE {{i \in 1..(n-1) : i % k = 0} : k \in 1..n}
+DlInit == [pos |-> 0, pendB |-> <<>>, line |-> <<>>, cr |-> FALSE, out |-> <<>>, reads |-> 1]
 DelimInit == \E n \in 0..MaxSyms : \E t \in [1..n -> Syms] : \E c \in CutSets(Len(Bytes(t))) :
                /\ inp = [text |-> t, bytes |-> Bytes(t), cuts |-> c]
-               /\ dl = [pos |-> 0, pendB |-> <<>>, line |-> <<>>, cr |-> FALSE, out |-> <<>>]
+               /\ dl = DlInit
 (* DelimSource.read loop body 226-233 / chunks() 193-196: one chunk arrives *)
 Feed == /\ Mode = "delim" /\ ~done /\ dl.pos < Len(inp.bytes)
         /\ LET later == {c \in inp.cuts : c > dl.pos}
@@ -118,6 +134,11 @@ Feed == /\ Mode = "delim" /\ ~done /\ dl.pos < Len(inp.bytes)
 End == /\ Mode = "delim" /\ ~done /\ dl.pos = Len(inp.bytes)
        /\ dl' = [dl EXCEPT !.out = IF dl.line # <<>> THEN Append(dl.out, dl.line) ELSE dl.out, !.line = <<>>]
        /\ done' = TRUE /\ UNCHANGED inp
+(* the same source object is read again (DiskSource.read / DelimSource.read called a second time): nothing of
+   the first read is left - the assembler starts from its initial state on the same bytes *)
+Again == /\ Mode = "delim" /\ done /\ dl.reads < Reads
+         /\ dl' = [DlInit EXCEPT !.reads = dl.reads + 1]
+         /\ done' = FALSE /\ UNCHANGED inp
 IsPrefix(a, b) == Len(a) <= Len(b) /\ SubSeq(b, 1, Len(a)) = a
 (* what is emitted never has to be taken back, and at the end it is the text's lines: for EVERY chunking *)
 DelimPrefix == Mode = "delim" => IsPrefix(dl.out, Ref(inp.bytes))
@@ -128,7 +149,12 @@ LineSyms(l) == [i \in DOMAIN l |-> l[i]]
 WriteRead   == (Mode = "delim" /\ done) =>
                  LET ls == Ref(inp.bytes) IN
                  Ref(Flat([i \in DOMAIN ls |-> Flat([j \in DOMAIN ls[i] |-> BytesOf(ls[i][j])]) \o <<"LF">>])) = ls
-DelimEmit == (Mode = "delim" /\ done) =>
+(* appending with one DiskSink: the second write continues the file of the first *)
+AppendRead  == (Mode = "delim" /\ done) =>
+                 LET ls == Ref(inp.bytes)
+                     wr(xs) == Flat([i \in DOMAIN xs |-> Flat([j \in DOMAIN xs[i] |-> BytesOf(xs[i][j])]) \o <<"LF">>])
+                 IN Ref(wr(ls) \o wr(ls)) = ls \o ls
+DelimEmit == (Mode = "delim" /\ done /\ dl.reads = 1) =>
                PrintT(ToJson([mode |-> "delim", bytes |-> inp.bytes,
                               cuts |-> [i \in 1..Len(inp.bytes) |-> i \in inp.cuts],
                               lines |-> [i \in DOMAIN dl.out |-> Str(dl.out[i])]]))
@@ -417,6 +443,13 @@ ArffCase == LET sh == ArffShape(inp.shape)
                 file == ArffWrite(sh, inp.sparse, inp.devs)
             IN [t |-> t, file |-> file]
 ArffSound == (Mode = "arff" /\ done) => (LET c == ArffCase IN ArffParse(c.file) = c.t)
+(* one reader object applied to a history of files: the i-th result depends on the i-th file only *)
+ReadHistory(P(_), files) == [i \in DOMAIN files |-> P(files[i])]
+ArffReuse == (Mode = "arff" /\ done) =>
+               LET sh == ArffShape(inp.shape)
+                   f == ArffCase.file
+                   g == ArffWrite(sh, inp.sparse, {})
+               IN ReadHistory(ArffParse, <<f, g, f>>) = <<ArffTable(sh, inp.devs), ArffTable(sh, {}), ArffTable(sh, inp.devs)>>
 ArffEmit == (Mode = "arff" /\ done) =>
    LET c == ArffCase IN
    PrintT(ToJson([mode |-> "arff", shape |-> inp.shape, sparse |-> inp.sparse, common |-> ArffCommon(inp.sparse, inp.devs),
@@ -482,6 +515,11 @@ CsvInit == \E sh \in Shapes : LET U == CsvUniverse(CsvShape(sh)) IN
              /\ dl = <<>>
 CsvCase == LET nc == CsvShape(inp.shape) IN [t |-> CsvTable(nc, inp.devs), file |-> CsvWrite(nc, inp.devs)]
 CsvSound == (Mode = "csv" /\ done) => (LET c == CsvCase IN CsvParse(c.file, CsvOpt(inp.devs, "hdr") = "yes", CsvOpt(inp.devs, "delim")) = c.t)
+CsvReuse == (Mode = "csv" /\ done) =>
+              LET nc == CsvShape(inp.shape)
+                  ds0 == {d \in inp.devs : d.f \in {"hdr", "delim"}}      \* same constructor parameters
+                  P(x) == CsvParse(x, CsvOpt(inp.devs, "hdr") = "yes", CsvOpt(inp.devs, "delim"))
+              IN ReadHistory(P, <<CsvCase.file, CsvWrite(nc, ds0), CsvCase.file>>) = <<CsvCase.t, CsvTable(nc, ds0), CsvCase.t>>
 CsvDevOut(d) == [f |-> d.f, v |-> IF d.k # "cell" THEN d.v ELSE Str(d.v.v)]
 CsvEmit == (Mode = "csv" /\ done) =>
    LET c == CsvCase IN
@@ -546,6 +584,10 @@ SvmParse(lines, manik) ==
 SvmInit == \E d1 \in Pick(SvmUniverse, 1) : \E d2 \in Pick(SvmUniverse, 2) : \E d3 \in Pick(SvmUniverse, 3) :
            LET ds == {d1, d2, d3} \ {Nil} IN /\ OnePerField(ds) /\ inp = [shape |-> "svm", devs |-> ds] /\ dl = <<>>
 SvmSound == (Mode = "svm" /\ done) => SvmParse(SvmWrite(inp.devs), SvmOpt(inp.devs, "fmt") = "manik") = SvmTable(inp.devs)
+SvmReuse == (Mode = "svm" /\ done) =>
+              LET ds0 == {d \in inp.devs : d.f = "fmt"}
+                  P(x) == SvmParse(x, SvmOpt(inp.devs, "fmt") = "manik")
+              IN ReadHistory(P, <<SvmWrite(inp.devs), SvmWrite(ds0), SvmWrite(inp.devs)>>) = <<SvmTable(inp.devs), SvmTable(ds0), SvmTable(inp.devs)>>
 SvmDevOut(d) == [f |-> d.f, v |-> IF d.k = "lex" THEN d.v
                                   ELSE IF d.v.t = "lab" THEN Str(Join(d.v.v, <<",">>))
                                   ELSE Str(Join([k \in DOMAIN d.v.v |-> <<ToString(d.v.v[k][1]), ":", ToString(d.v.v[k][2])>>], <<" ">>))]
@@ -565,6 +607,6 @@ Init == /\ done = FALSE
              [] Mode = "svm" -> SvmInit
 (* table modes: the single step in which the case is written, parsed back and printed *)
 Eval == Mode # "delim" /\ ~done /\ done' = TRUE /\ UNCHANGED <<inp, dl>>
-Next == Feed \/ End \/ Eval
+Next == Feed \/ End \/ Again \/ Eval
 Spec == Init /\ [][Next]_vars
 =============================================================================
